@@ -8,7 +8,8 @@ V = Path(__file__).resolve().parent
 THRESH = float(sys.argv[1]) if len(sys.argv) > 1 else 120.0
 p = V / "tuning.json"
 t = json.loads(p.read_text()) if p.exists() else {"slow": {}}
-for f in glob.glob(str(V / "evidence" / "*.json")):
+files = glob.glob(str(V / "evidence" / "*.json")) + glob.glob(str(V / ".work" / "measure" / "*" / "*.json"))
+for f in files:
     d = json.load(open(f))
     for h in d["coverage"].get("harnesses", []):
         if h["time_s"] > THRESH or h["verdict"] == "inconclusive":
